@@ -113,6 +113,21 @@ def _smooth(job):
         rhs = al*e1 + (1-al)*run(e2, s2)
         affine = bool(np.linalg.norm(lhs - rhs) <= 1e-11*(
             np.linalg.norm(lhs) + 1e-300))
+        # ... also for sparse perturbations: a field (or source) supported on
+        # one interior edge, where whole blocks see an exactly zero
+        # right-hand side:  S(e + c u, s) = S(e, s) + S(c u, 0)  and
+        # S(e, s + c u) = S(e, s) + S(0, c u)
+        zero = np.zeros(L.ne, dtype=dt)
+        inter = np.flatnonzero(m)
+        for n in rng.choice(inter, size=min(10, inter.size), replace=False):
+            u = np.zeros(L.ne, dtype=dt)
+            u[n] = rnd(1, 1, 2)[0]
+            for a, b, c, d in ((e0 + u, s0, u, zero), (e0, s0 + u, zero, u)):
+                lhs = run(a, b)
+                rhs = e1 + run(c, d)
+                if np.linalg.norm(lhs - rhs) > 1e-11*(
+                        np.linalg.norm(lhs) + 1e-300):
+                    affine = False
         # compiled = python source (one kernel call)
         samejit = True
         if max(shape) <= 4:
